@@ -99,6 +99,13 @@ func NewEnv(dir string, ds map[string]any) (*Env, error) {
 		}
 		return nil
 	})
+	// an instant is an instant in whichever zone it is expressed: every second object holds its time in another zone
+	for i, it := range items {
+		if it != nil && it.T != nil && i%2 == 1 {
+			tt := it.T.In(time.FixedZone("", 2*3600))
+			it.T = &tt
+		}
+	}
 	// arrival order must not matter: reverse
 	for i, j := 0, len(items)-1; i < j; i, j = i+1, j-1 {
 		items[i], items[j] = items[j], items[i]
@@ -292,6 +299,8 @@ func (e *Env) Run(idx int, c *Case) []Mismatch {
 			if !paged {
 				// the same predicate through the sorting scanner: same set, same count
 				judge("SortedScan", guard(func() ([]string, int64, error) { return st.QueryIds(tx, Filter(pred)+" sort by m, f desc") }), c.Ids, c.Count, false, true, "C01")
+				// ... and with as many sort fields as the engine takes, on fields that tie: the answer is a set, ties lose nobody
+				judge("SortedScan", guard(func() ([]string, int64, error) { return st.QueryIds(tx, Filter(pred)+" sort by b, b desc, b, b desc, b") }), c.Ids, c.Count, false, true, "C01")
 			}
 		}
 		// through the extended child store: every parent row is visible; through the plain child store: the rows with child data --
